@@ -100,7 +100,7 @@ reg('C06', 'model_checking',
     'explicit-state history search with crash-point enumeration on the real objects + exhaustive configuration enumeration vs. independent implementation', 'DESIGN.md 2/C06')
 
 reg('C13', 'model_checking',
-    'All operation sequences up to depth 3 (thorough 4) over a 15-operation menu of passphrase / key / multi-recipient (keys + passphrase, two passphrases) encryptions and key protections '
+    'All operation sequences up to depth 3 (thorough 4) over a 17-operation menu of passphrase / key / multi-recipient (keys + passphrase, two passphrases) encryptions and key protections '
     '(identical arguments repeated), executed on the real code under an owned random source: a recording source (every session key, prefix, salt, IV found in '
     'the output by an independent decryptor must be a value drawn during that very operation, of the right size, never reused across the history, not '
     'constant, session key absent from the output) and two scripted labelled streams (every random field equals the stream value drawn in that operation, so '
